@@ -480,7 +480,7 @@ def registry_lines(entries) -> list[list[str]]:
         elif e["checksum_algo"] is None:
             algo = "null"
         else:
-            algo = hx(e["checksum_algo"])
+            algo = hx(str(e["checksum_algo"]))      # the library formats whatever value is there into the key
         out.append(["reg.add", hx(e["country_code"]), hx(e["bank_code"]),
                     "null" if e["bic"] is None else hx(e["bic"]), tf(e["primary"]), algo,
                     hx(e["name"]), hx(e["short_name"])])
